@@ -150,6 +150,17 @@ def run_exact_case(case, ctx):
     Hd = dense.mpo_to_matrix(H.A)
     d = len(qd)
     numiter = max(a.size for a in psi.A) * d + 2     # covers every one- and two-site local problem
+    if numiter > 400:
+        # the Krylov routines document "numiter should be much smaller than the dimension"; asking for thousands of iterations on
+        # a local problem of a few hundred dimensions is outside that use (first thorough run: sporadic LAPACK non-convergence)
+        ctx.cls('local_dimension_above_cap')
+        raise OutOfDomain()
+    # conditioning: for (partly) real dt rounding errors are amplified by exp(|Re dt| n spread(H)); the property bounds |dt| ||H||
+    lam = np.linalg.eigvalsh((Hd + Hd.conj().T) / 2)
+    amp = float(np.exp(abs(dt.real) * steps * (lam[-1] - lam[0])))
+    if amp > 1e3:
+        ctx.cls('ill_conditioned_dt_times_H')
+        raise OutOfDomain()
     if integ == 'single':
         ptn.integrate_local_singlesite(H, psi, dt, steps, numiter_lanczos=numiter)
     else:
@@ -161,7 +172,7 @@ def run_exact_case(case, ctx):
     sdim = len(ec.sector_indices(qd, L, int(qD[-1][0])))
     ctx.nontrivial = sdim >= 2
     ctx.cls(f'exact:{integ}:{"imag" if dt.real == 0 else ("real" if dt.imag == 0 else "complex")}_dt')
-    ctx.close(v, ref, 'evolution_equals_matrix_exponential_on_complete_manifold' + ('' if pred else '[no_complete_split]'), tol=1e-9)
+    ctx.close(v, ref, 'evolution_equals_matrix_exponential_on_complete_manifold' + ('' if pred else '[no_complete_split]'), tol=1e-9 * amp)
 
 
 # ---- reversibility ------------------------------------------------------------------------------
